@@ -390,6 +390,17 @@ func rtOne(o *hout.Out, c *tcase, prop string, w []byte, dump, blankDump string)
 					o.Nontrivial("C17", "set-after-parse "+string(w4))
 				}
 				o.Count("C17.set-after-parse")
+				// C02 on an object that lives on: amended after it was parsed and serialized once, serialized again — parsing
+				// those bytes must give the amended values
+				if prop == "C02" && res4 == "ok" && c.unique {
+					b4 := c.blank()
+					if r4 := safeUnmarshal(b4, w4, true); r4 != "ok" {
+						o.Fail("C02", "valid-message-"+r4, "after amending a parsed message: "+strings.ReplaceAll(string(w4), "\x01", "|"))
+					} else if g4, w4want := cutTrailer(wire.MsgNoFraming(b4.Items())), cutTrailer(maskFraming(d2)); g4 != w4want {
+						o.Fail("C02", "parsed-differs", "after amending a parsed (and once serialized) message and serializing it again: "+firstDiff(g4, w4want))
+					}
+					o.Count("C02.amend-and-reserialize")
+				}
 			}
 		}
 	}
